@@ -1,0 +1,48 @@
+//go:build verif
+
+// Contracts for the ring queue (properties C01, C02). Comment-only: compiled under the build tag
+// `verif` and read by /verif/engine (govc). The contracts describe the queue as the sequential data
+// structure it is under q.lock: size(q) elements, at(q,0) the oldest.
+
+package queues
+
+//@ pure size(q *RingQueue) mathint =
+//@     md(q.content.tail - q.content.head + q.content.mod, q.content.mod)
+//@ pure at(q *RingQueue, i mathint) any =
+//@     q.content.buffer[md(q.content.head + 1 + i, q.content.mod)]
+//@ pure wf(q *RingQueue) bool =
+//@     q.content != nil && 1 <= q.content.mod && len(q.content.buffer) == q.content.mod &&
+//@     0 <= q.content.head && q.content.head < q.content.mod &&
+//@     0 <= q.content.tail && q.content.tail < q.content.mod && q.len == size(q)
+
+//@ func New(initialSize)
+//@   requires 1 <= initialSize
+//@   ensures  result != nil && fresh(result) && wf(result) && size(result) == 0
+
+//@ func (*RingQueue).Push
+//@   check overflow
+//@   requires wf(q) && !held(q.lock)
+//@   modifies q.len, q.content, q.content.tail, q.content.buffer[*]
+//@   ensures  wf(q)
+//@   ensures  size(q) == old(size(q)) + 1
+//@   ensures  forall i mathint :: 0 <= i && i < old(size(q)) ==> at(q, i) == old(at(q, i))
+//@   ensures  at(q, old(size(q))) == item
+//@ loop (*RingQueue).Push#1
+//@   invariant 0 <= i && i <= c.mod && len(newBuff) == newLen && newLen > c.mod
+//@   invariant forall j mathint :: 0 <= j && j < i ==> newBuff[j] == c.buffer[md(c.tail + j, c.mod)]
+//@   decreases c.mod - i
+
+//@ func (*RingQueue).Length
+//@   ensures result == q.len
+
+//@ func (*RingQueue).Empty
+//@   ensures result == (q.len == 0)
+
+//@ func (*RingQueue).Pop
+//@   check overflow
+//@   requires wf(q) && !held(q.lock)
+//@   modifies q.len, q.content.head, q.content.buffer[*]
+//@   ensures  wf(q)
+//@   ensures  old(size(q)) == 0 ==> result.1 == false && result.0 == nil && size(q) == 0
+//@   ensures  old(size(q)) > 0 ==> result.1 == true && result.0 == old(at(q, 0)) && size(q) == old(size(q)) - 1
+//@   ensures  old(size(q)) > 0 ==> forall i mathint :: 0 <= i && i < size(q) ==> at(q, i) == old(at(q, i + 1))
